@@ -36,8 +36,17 @@ double AbstractHmmLikelihood::getFirstOrderDerivative(const std::string& variabl
   {
     dVariable_ = variable;
 
-    hmmEmissionProbabilities().computeDEmissionProbabilities(dVariable_);
-    computeDLikelihood_();
+    try
+    {
+      hmmEmissionProbabilities().computeDEmissionProbabilities(dVariable_);
+      computeDLikelihood_();
+    }
+    catch (...)
+    {
+      // nothing valid is cached under this name
+      dVariable_ = "";
+      throw;
+    }
   }
   return -dLogLik_;
 }
@@ -48,8 +57,16 @@ double AbstractHmmLikelihood::getSecondOrderDerivative(const std::string& variab
   {
     d2Variable_ = variable;
 
-    hmmEmissionProbabilities().computeD2EmissionProbabilities(d2Variable_);
-    computeD2Likelihood_();
+    try
+    {
+      hmmEmissionProbabilities().computeD2EmissionProbabilities(d2Variable_);
+      computeD2Likelihood_();
+    }
+    catch (...)
+    {
+      d2Variable_ = "";
+      throw;
+    }
   }
   return -d2LogLik_;
 }
